@@ -24,10 +24,9 @@ theorem C13_exact (cfg : ECfg) (hq : cfg.tc.q.sharedFallbackVar = false) (al : L
     (fallback node : Node) (s sb : RState) (top : Str) (rest : List Str) (ex : Exc)
     (hs : s.streams = top :: rest)
     (hbody : eval cfg al f node (onErrorEnter id s) = .raised ex sb)
-    (hexc : isSubclass cfg ex.cls ["Exception"] = true)
-    (htok : sb.x.token.isSome = true) :
+    (hexc : isSubclass cfg ex.cls ["Exception"] = true) :
     ∃ s2, s2.streams = top :: rest ∧ s2.handled = sb.handled + 1 ∧
-      (∃ line col, s2.env.get (lit "error") = some (Val.errorInfo ex.cls ex.msg line col)) ∧
+      (∃ pos, s2.env.get (lit "error") = some (Val.errorInfo ex.cls ex.msg pos) ∧ pos.isSome = sb.x.token.isSome) ∧
       s2.errs = sb.errs.extract 0 s.errs.size ∧
       eval cfg al (f + 1) (.onError id fallback node) s = eval cfg al f fallback s2 := by
   obtain ⟨extra, δ, hδ⟩ := ((good_eval cfg hq al f node).at_ (onErrorEnter id s) top rest (by simpa [onErrorEnter] using hs)).2 ex sb hbody
@@ -35,9 +34,7 @@ theorem C13_exact (cfg : ECfg) (hq : cfg.tc.q.sharedFallbackVar = false) (al : L
   | none =>
     exfalso
     unfold onErrorHandle at ho
-    cases ht : sb.x.token with
-    | none => simp [ht] at htok
-    | some t => simp [ht] at ho
+    cases ho
   | some s2 =>
     obtain ⟨hx, hh, _⟩ := C13_handler_exact cfg hq id top δ rest extra ex sb s2 hδ ho
     refine ⟨{ s2 with tmaps := s2.tmaps.drop (s2.tmaps.length - s.tmaps.length), errs := s2.errs.extract 0 s.errs.size },
@@ -45,9 +42,7 @@ theorem C13_exact (cfg : ECfg) (hq : cfg.tc.q.sharedFallbackVar = false) (al : L
     · exact C13_error_bound cfg id _ _ ex sb s2 ho
     · have : s2.errs = sb.errs := by
         unfold onErrorHandle at ho
-        split at ho
-        · cases ho
-        · simp only [Option.some.injEq] at ho; rw [← ho]
+        simp only [Option.some.injEq] at ho; rw [← ho]
       simp only [this]
     · have hlen : s.streams.length = 1 + rest.length := by rw [hs]; simp [Nat.add_comm]
       have hhd : (s.streams.headD []).length = top.length := by rw [hs]; rfl
@@ -117,11 +112,10 @@ theorem C12_handled_records_dropped (cfg : ECfg) (hq : cfg.tc.q.sharedFallbackVa
     (fallback node : Node) (s sb : RState) (top : Str) (rest : List Str) (ex : Exc)
     (hs : s.streams = top :: rest)
     (hbody : eval cfg al f node (onErrorEnter id s) = .raised ex sb)
-    (hexc : isSubclass cfg ex.cls ["Exception"] = true)
-    (htok : sb.x.token.isSome = true) :
+    (hexc : isSubclass cfg ex.cls ["Exception"] = true) :
     ∃ s2, s2.errs.size ≤ s.errs.size ∧ s2.errs = sb.errs.extract 0 s.errs.size ∧
       eval cfg al (f + 1) (.onError id fallback node) s = eval cfg al f fallback s2 := by
-  obtain ⟨s2, _, _, _, herr, hev⟩ := C13_exact cfg hq al f id fallback node s sb top rest ex hs hbody hexc htok
+  obtain ⟨s2, _, _, _, herr, hev⟩ := C13_exact cfg hq al f id fallback node s sb top rest ex hs hbody hexc
   refine ⟨s2, ?_, herr, hev⟩
   rw [herr, Array.size_extract]
   omega
